@@ -248,6 +248,10 @@ def make_history(rng, tier):
                 ops.append(["get_nondefault", k, rng.choice(["adjacency", "borders", "distances"]),
                             {"only_upper": rng.random() < 0.5, "include_opposing_neighbours": rng.random() < 0.5}])
             ops.append(["get", k, rng.choice(gs)])
+        elif r < 0.715 and any(o[0] == "3d" and o[2] >= 4 for o in objs):
+            # the cell object built directly from a grid's points (as the package's own tests do), its half-sphere relative, and a second
+            # gen_grid() on the live grid - all after foreign RNG events, all under the RNG trace
+            ops.append(["direct_voronoi", rng.choice([k for k, o in enumerate(objs) if o[0] == "3d" and o[2] >= 4])])
         elif r < 0.72:
             # the live object is replaced by a copy of itself (deepcopy or pickle round trip); the copy must answer like a fresh object
             ops.append(["copy", rng.randrange(len(objs)), rng.choice(["deepcopy", "pickle"])])
@@ -312,6 +316,24 @@ def run_history(REC, ops, golden):
                     {"adjacency": obj.get_voronoi_adjacency, "borders": obj.get_cell_borders, "distances": obj.get_center_distances}[g](**opts)
                 except Exception:
                     pass   # its own outcome is not C08's business
+            elif op[0] == "direct_voronoi":
+                from molgri.space.voronoi import RotobjVoronoi
+                kind, alg, N, t, obj = live[op[1]]
+                np.random.random(3)                      # a foreign event: the generator is in the caller's hands now
+                noise_between = True
+                sv = RotobjVoronoi(np.array(obj.get_grid_as_array(), dtype=float))
+                a1 = sv.get_voronoi_volumes(approx=True)
+                want = golden.get(json.dumps([kind, alg, N, t]), {})
+                if "areas_approx" in want:
+                    REC.check("C08.digest_equals_fresh_process", dg(a1) == want["areas_approx"],
+                              {"object": [kind, alg, N, t], "getter": "areas_approx of a cell object built directly from the grid's points"})
+                np.random.random(2)
+                try:
+                    obj.get_spherical_voronoi().get_related_half_voronoi().get_voronoi_volumes(approx=True)
+                except Exception:
+                    pass
+                np.random.random(2)
+                obj.gen_grid()
             elif op[0] == "copy":
                 kind, alg, N, t, obj = live[op[1]]
                 try:
@@ -372,8 +394,10 @@ def run_histories(spec):
         # every run: a single-position full grid whose matrices are consumed in place by the package's own get_full_prefactors
         fixed = [["construct", "full", "ico", 1, "cube4D_8|[0.1]"], ["get", 0, "full_prefactors"], ["get", 0, "full_borders"],
                  ["get", 0, "full_distances"], ["seed", 7], ["get", 0, "full_prefactors"], ["get", 0, "full_adjacency"],
-                 ["construct", "4d", "cube4D", 8, None], ["get", 1, "borders"], ["scramble", 1], ["get", 1, "borders"], ["get", 1, "distances"]]
-        hist.append((fixed, [("full", "ico", 1, "cube4D_8|[0.1]"), ("4d", "cube4D", 8, None)]))
+                 ["construct", "4d", "cube4D", 8, None], ["get", 1, "borders"], ["scramble", 1], ["get", 1, "borders"], ["get", 1, "distances"],
+                 ["construct", "3d", "randomS", 20, None], ["draw", 4], ["direct_voronoi", 2], ["get", 2, "areas_approx"], ["get", 2, "areas"],
+                 ["construct", "3d", "ico", 14, None], ["seed", 99], ["direct_voronoi", 3], ["get", 3, "areas_approx"]]
+        hist.append((fixed, [("full", "ico", 1, "cube4D_8|[0.1]"), ("4d", "cube4D", 8, None), ("3d", "randomS", 20, None), ("3d", "ico", 14, None)]))
     if spec["rseed"] % 1000 == 1:
         # every run: the grids with fewer than four points, with N held in every integer form, all their getters
         ops, objs = [], []
